@@ -172,6 +172,28 @@ class FactCache:
                     facts.update(atoms)
                     for vb in via:
                         facts.update(self.block_facts(vb, _stack + (b.idx,)))
+        # a merged value known to differ from the constant that all but one of its alternatives carry came through the
+        # remaining edge: what held on that edge holds (a helper returning 0 for "rejected", tested by its caller)
+        for _round in range(3):
+            extra = set()
+            for (op, x, y) in facts:
+                if op != 'ne' or not (y == 'null' or const_int(y) is not None):
+                    continue
+                pi = fn.get(x) if isinstance(x, str) else None
+                if pi is None or pi.op != 'phi' or pi.block.idx in _stack:
+                    continue
+                others = [(v, bb) for v, bb in zip(pi.o, pi.x['bb']) if not (v == y or (const_int(v) is not None and const_int(v) == const_int(y)))]
+                if len(others) != 1:
+                    continue
+                pb = fn.bb[others[0][1]]
+                atoms, via = edge_atoms(fn, pb, pi.block)
+                extra.update(atoms)
+                extra.update(self.block_facts(pb, _stack + (b.idx,)))
+                for vb in via:
+                    extra.update(self.block_facts(vb, _stack + (b.idx,)))
+            if extra <= facts:
+                break
+            facts |= extra
         fs = frozenset(facts)
         self._block[b.idx] = fs
         return fs
@@ -555,6 +577,12 @@ class Prover:
                             return True
                         if op == 'ne' and ((p == x and const_int(qv) == mx) or (qv == x and const_int(p) == mx)):
                             return True
+                        # the comparison may have been normalised onto the base of x = base + k:  base != mx - k
+                        xi = self._ins(x)
+                        if op == 'ne' and xi is not None and xi.op == 'add' and const_int(xi.o[1]) is not None:
+                            kk = const_int(xi.o[1])
+                            if (p == _k(xi.o[0]) and const_int(qv) == (mx - kk) % (mx + 1)) or (qv == _k(xi.o[0]) and const_int(p) == (mx - kk) % (mx + 1)):
+                                return True
                         if op == 'ule' and p == x and qv != x:
                             # x <= y and y provably below max
                             uy = self.ub(facts, qv)
